@@ -4,8 +4,14 @@ set -e
 cd "$(dirname "$0")"
 export CARGO_NET_OFFLINE=true
 python3 tools/gen_consts.py || true
-python3 tools/gen_main.py
-(cd lean && lake build)
+python3 tools/gen_lake.py
+# Lean: the property modules and model drivers of every registered check
+targets=""
+for f in checks/C*.json; do
+  id=$(basename "$f" .json)
+  targets="$targets Libp2pModel.Props.$id drv_$id"
+done
+(cd lean && lake build $targets)
 [ -f harness/Cargo.lock ] || cp /repo/Cargo.lock harness/Cargo.lock
 (cd harness && cargo build --offline --workspace)
 echo "setup done"
